@@ -52,9 +52,7 @@ def deps(e):
         r = deps(e.body())
     else:
         r = frozenset()
-    if len(_dep_cache) > 500000:
-        _dep_cache.clear()
-    _dep_cache[eid] = (r, e)[0]
+    _dep_cache[eid] = r
     _keep.append(e)
     return r
 
@@ -163,8 +161,6 @@ def to_poly(e):
     if r is not None:
         return r
     r = _to_poly(e)
-    if len(_poly_cache) > 200000:
-        _poly_cache.clear()
     _poly_cache[eid] = r
     _keep.append(e)
     return r
@@ -467,3 +463,152 @@ def multi_sigma(binders, body, c=None):
 def flatten_sigmas(e, c=None):
     """Re-normalise e (re-associates nested Sigma applications)."""
     return normalise(e)
+
+
+# ---------------------------------------------------------------------------------------
+# rational normal form: e == P/Q with P, Q polynomials (field identities without NRA)
+
+
+_rat_cache = {}
+
+
+def to_rat(e):
+    eid = e.get_id()
+    r = _rat_cache.get(eid)
+    if r is None:
+        r = _to_rat(e)
+        _rat_cache[eid] = r
+        _keep.append(e)
+    return r
+
+
+_ONE = {(): Fraction(1)}
+
+
+def _rat_add(a, b, sign=1):
+    (p1, q1), (p2, q2) = a, b
+    if q1 == q2:
+        return (p_add(p1, p2, sign), q1)
+    return (p_add(p_mul(p1, q2), p_mul(p2, q1), sign), p_mul(q1, q2))
+
+
+def _rat_mul(a, b):
+    return (p_mul(a[0], b[0]), p_mul(a[1], b[1]))
+
+
+def _to_rat(e):
+    if z3.is_int_value(e):
+        return (p_const(e.as_long()), _ONE)
+    if z3.is_rational_value(e):
+        return (p_const(e.as_fraction()), _ONE)
+    if not z3.is_app(e):
+        return (p_atom(e), _ONE)
+    k = e.decl().kind()
+    ch = e.children()
+    if k == z3.Z3_OP_TO_REAL:
+        return to_rat(ch[0])
+    if k == z3.Z3_OP_ADD:
+        r = ({}, _ONE)
+        for c in ch:
+            r = _rat_add(r, to_rat(c))
+        return r
+    if k == z3.Z3_OP_SUB:
+        r = to_rat(ch[0])
+        for c in ch[1:]:
+            r = _rat_add(r, to_rat(c), -1)
+        return r
+    if k == z3.Z3_OP_UMINUS:
+        p, q = to_rat(ch[0])
+        return (p_scale(p, -1), q)
+    if k == z3.Z3_OP_MUL:
+        r = (_ONE, _ONE)
+        for c in ch:
+            r = _rat_mul(r, to_rat(c))
+        return r
+    if k == z3.Z3_OP_DIV and e.sort() == _REAL:
+        (p1, q1), (p2, q2) = to_rat(ch[0]), to_rat(ch[1])
+        return (p_mul(p1, q2), p_mul(q1, p2))
+    if k == z3.Z3_OP_POWER and (z3.is_int_value(ch[1]) or z3.is_rational_value(ch[1])):
+        f = ch[1].as_fraction() if not z3.is_int_value(ch[1]) else Fraction(ch[1].as_long())
+        if f.denominator == 1 and 0 <= f <= 6:
+            r = (_ONE, _ONE)
+            b = to_rat(ch[0])
+            for _ in range(int(f)):
+                r = _rat_mul(r, b)
+            return r
+        return (p_atom(e), _ONE)
+    if k == z3.Z3_OP_ITE and e.sort() in (_REAL, _INT):
+        c, a, b = ch
+        if z3.is_not(c):
+            c, a, b = c.arg(0), b, a
+        ic = (p_atom(ind(c)), _ONE)
+        ra, rb = to_rat(a), to_rat(b)
+        # ind*a + (1-ind)*b  = ind*(a-b) + b
+        return _rat_add(_rat_mul(ic, _rat_add(ra, rb, -1)), rb)
+    return (p_atom(e), _ONE)
+
+
+def field_identity(a, b):
+    """True iff a == b is an identity of rational functions (valid wherever every divisor
+    occurring in a or b is non-zero)."""
+    try:
+        (p1, q1), (p2, q2) = to_rat(a), to_rat(b)
+        d = p_add(p_mul(p1, q2), p_mul(p2, q1), -1)
+    except OutOfReach:
+        return False
+    return not d
+
+
+def canon_rat(e):
+    """canonical z3 expr of e as a quotient of two normalised polynomials.  Equal to e
+    wherever every divisor occurring in e is non-zero."""
+    p, q = to_rat(e)
+    if q == _ONE:
+        return poly_expr(p)
+    return poly_expr(p) / poly_expr(q)
+
+
+def ind_conditions(*exprs):
+    """conditions c of indicator atoms If(c,1,0) / ite terms occurring in the exprs"""
+    out = {}
+    stack = list(exprs)
+    seen = set()
+    while stack:
+        t = stack.pop()
+        if t.get_id() in seen:
+            continue
+        seen.add(t.get_id())
+        if z3.is_app(t):
+            if t.decl().kind() == z3.Z3_OP_ITE:
+                c = t.arg(0)
+                while z3.is_not(c):
+                    c = c.arg(0)
+                out[c.get_id()] = c
+            stack.extend(t.children())
+    return list(out.values())
+
+
+def certify_equal_by_cases(a, b, feasible, max_conds=7):
+    """Decide a == b as rational functions under every feasible truth assignment of the
+    ite-conditions occurring in them.  `feasible(assignment)` -> bool prunes impossible
+    cases.  Returns list of (assignment [(cond, bool)], ok)  or None if too many conditions."""
+    conds = ind_conditions(a, b)
+    if len(conds) > max_conds:
+        return None
+    results = []
+
+    def rec(i, assign):
+        if i == len(conds):
+            subs = [(c, z3.BoolVal(v)) for c, v in assign]
+            a2 = z3.simplify(z3.substitute(a, *subs)) if subs else a
+            b2 = z3.simplify(z3.substitute(b, *subs)) if subs else b
+            results.append((list(assign), a2.eq(b2) or field_identity(a2, b2)))
+            return
+        for v in (True, False):
+            assign.append((conds[i], v))
+            if feasible(assign):
+                rec(i + 1, assign)
+            assign.pop()
+
+    rec(0, [])
+    return results
